@@ -8,6 +8,7 @@ import sys
 import threading
 import types
 
+from ..core import attach
 from ..core.baton import Sched, BLoop
 
 
@@ -379,14 +380,11 @@ def run_scenario(scn, seed, pct=0, choices=None, preempt=None):
     S = Sched(seed, choices=choices, pct_depth=pct, max_steps=30000, preempt=preempt)
     E = CEnv(S)
     ENV = E
-    saved = (A.Lock, A.aio)
-    A.Lock = lambda: ILock(E)
-    saved_rlock = getattr(A, 'RLock', None)
-    if saved_rlock is not None:
-        A.RLock = lambda: ILock(E)          # whichever kind of lock the wrapper creates is this cooperative one
-    proxy = AioProxy('asyncio')
-    proxy.Event = type('IEventE', (IEvent,), {'E': E})
-    A.aio = proxy
+    # the lock the wrapper creates (whichever kind) and the events it creates are the cooperative / observing ones,
+    # found by identity however the module spells its imports
+    event_pair = (asyncio.Event, type('IEventE', (IEvent,), {'E': E}))
+    attach.substitute(A, [(threading.Lock, lambda: ILock(E)), (threading.RLock, lambda: ILock(E)), event_pair],
+                      (threading, asyncio))
     cache = ICache(E, scn['capacity'])
     vsalt = len(scn['loops']) + sum(len(lp['callers']) for lp in scn['loops'])
 
@@ -431,12 +429,10 @@ def run_scenario(scn, seed, pct=0, choices=None, preempt=None):
     try:
         w = A.threadsafe_async_cache(f, cache=cache)
     finally:
-        A.Lock = saved[0]
-        if saved_rlock is not None:
-            A.RLock = saved_rlock
+        attach.substitute(A, [event_pair], (asyncio,))       # locks created from now on are real ones again
     tables = find_tables(w)
     if len(tables) != 1:
-        A.aio = saved[1]
+        attach.restore(A)
         raise RuntimeError(f'cannot attach to the in-flight table of the wrapper: {len(tables)} candidate dict(s) '
                            f'reachable from its closure (expected exactly one, empty, plain dict)')
     tables[0](IEvents(E))
@@ -525,7 +521,7 @@ def run_scenario(scn, seed, pct=0, choices=None, preempt=None):
             S.spawn(f'T{li}', mk(li, spec))
         S.run(wall_timeout=30)
     finally:
-        A.aio = saved[1]
+        attach.restore(A)
     # the run is over: whatever abandoned coroutines do when they are finalized is not part of it
     out = dict(obs=list(E.obs), inv=list(E.inv), results=dict(E.results), hung=S.hung, errors=list(S.errors),
                trace=list(S.trace), branching=list(S.branching), ncallers=sum(len(l['callers']) for l in scn['loops']), vt=S.vt)
